@@ -331,6 +331,9 @@ func (in *Interp) symLoad(a *Array, idx *term.Term) Value {
 		tab := term.NewTable("tab", iw, first.W, vals)
 		return term.Select(tab, term.Extract(idx, iw-1, 0))
 	}
+	if u := ufTableLoad(a, idx); u != nil {
+		return u
+	}
 	res := a.E[n-1].(*term.Term)
 	for i := n - 2; i >= 0; i-- {
 		res = term.Ite(term.Eq(idx, term.Const(idx.W, uint64(i))), a.E[i].(*term.Term), res)
